@@ -82,7 +82,8 @@
 enum { O_C01 = 1, O_C04 = 2, O_C05 = 4, O_C20 = 8 };
 static int g_oracle = O_C01;
 static int g_pool = 0;
-static int g_prov = 0;   /* 1: the sinks answer uref_mgr / uclock / ubuf_mgr requests themselves (shared managers) */
+static int g_prov = 0;   /* 1: the sinks answer uref_mgr / uclock / ubuf_mgr requests themselves (shared managers), inside register;
+                          * 2: the sinks keep these requests and answer them only at the operation "provide" (and before the final teardown) */
 static double g_watchdog = 5;
 static const struct row *g_row;
 
@@ -176,6 +177,8 @@ struct side {
     struct upump *src_pump;
     bool in_pump;           /* currently inside the source pump's callback */
     bool td_last;           /* teardown dispatches the last ready pump instead of the first */
+    bool need_output_react; /* the application answers 'need_output' (no output, or the output refused the definition) with set_output(S4) */
+    int need_output_reacted;
     struct ubuf *held[MAXSEQ]; /* references kept on shared segments */
     int nheld;
     struct ubuf_mgr *pic_mgr, *sound_mgr; /* picture / sound rows: the upstream's buffer managers (created on first use) */
@@ -188,8 +191,8 @@ struct expect {
     struct px_srec rec;
     int stamp;              /* harness stamp when it was input */
     bool reentrant;         /* input from inside a request callback: the model of the output contract is not applied */
-    bool must[4];           /* model of the output contract: sink k must receive it */
-    bool mustnot[4];        /* ... must not receive it */
+    bool must[PX_NSINKS];   /* model of the output contract: sink k must receive it */
+    bool mustnot[PX_NSINKS]; /* ... must not receive it */
     int flow;               /* accepted definition when it was input */
 };
 
@@ -1255,6 +1258,8 @@ enum {
     OP_PROBE_TEARDOWN, /* dup: from now on the application releases every subpipe on the first source_end */
     OP_IN_PUMP,        /* the upstream's pump fires: a buffer is input with a non-NULL upump_p (the pipe may block that pump) */
     OP_TD_ORDER,       /* from now on loops dispatch the last ready pump first (affects the teardown as well) */
+    OP_PROVIDE,        /* (--prov 2) the sinks answer the uref_mgr / uclock / ubuf_mgr requests they have been keeping */
+    OP_NEED_OUTPUT,    /* from now on the application answers 'need_output' by connecting the accepting sink S2 */
     OP_RELEASE,
     NOPS
 };
@@ -1294,11 +1299,14 @@ static void opstr(int op, char *b, size_t n)
     else if (op == OP_IN_PUMP && g_row && g_row->pump_to_main) snprintf(b, n, "source pump fires: input(shape 0) with upump_p into the main pipe");
     else if (op == OP_IN_PUMP) snprintf(b, n, "source pump fires: input(size=2) with upump_p");
     else if (op == OP_TD_ORDER) snprintf(b, n, "loops dispatch the last ready pump first");
+    else if (op == OP_PROVIDE) snprintf(b, n, "sinks answer the requests they kept");
+    else if (op == OP_NEED_OUTPUT) snprintf(b, n, "application answers need_output with set_output(S4)");
     else if (op == OP_RELEASE) snprintf(b, n, "release");
     else snprintf(b, n, "op%d", op);
 }
 
 /* ------------------------------------------------------------------ */
+static void sev_add(struct st *st, int stamp, int sink, int what);
 static int on_event(struct px_fix *fx, struct upipe *upipe, int event, va_list args)
 {
     struct side *s = fx->user;
@@ -1312,6 +1320,21 @@ static int on_event(struct px_fix *fx, struct upipe *upipe, int event, va_list a
             *drop = s->probe_drop;
             return UBASE_ERR_NONE;
         }
+    }
+    if (event == UPROBE_NEED_OUTPUT && s->need_output_react && s->pipe != NULL && upipe == (s->tail ? s->tail : s->pipe)) {
+        /* documented use of the event: "the output rejected the flow definition / there is no output": connect another one */
+        struct upipe *cur = NULL;
+        if (ubase_check(upipe_get_output(upipe, &cur)) && cur != &fx->sinks[4].upipe) {
+            s->need_output_reacted++;
+            struct st *st = s->st;
+            if (s == &st->a && st->out != 5) { /* not predicted (a buffer pushed from inside a callback): the model follows the application's call */
+                st->out = st->om[0].out = 5;
+                st->om[0].ostate = OS_NONE;
+                sev_add(st, fx->stamp, 4, 0);
+            }
+            return upipe_set_output(upipe, &fx->sinks[4].upipe);
+        }
+        return UBASE_ERR_NONE;
     }
     if (event == UPROBE_SOURCE_END && s->probe_teardown) {
         /* the application tears the pipeline down as soon as one branch ends */
@@ -1366,7 +1389,8 @@ static void side_init(struct st *st, struct side *s, bool with_getters)
     s->fx.sinks[1].reject = true;
     for (int i = 0; i < PX_NSINKS; i++) {
         s->fx.sinks[i].unhandled_requests = true; /* requests end up at the probes, which provide */
-        s->fx.sinks[i].sync_provide = g_prov != 0 && !g_row->out_not_block; /* ... or the sinks answer with the shared managers */
+        s->fx.sinks[i].sync_provide = g_prov == 1 && !g_row->out_not_block; /* ... or the sinks answer with the shared managers */
+        s->fx.sinks[i].defer_provide = g_prov == 2 && !g_row->out_not_block; /* ... or later, when the history says so */
     }
     urequest_init_uref_mgr(&s->up_req, up_provide, NULL);
     urequest_set_opaque(&s->up_req, s);
@@ -1489,12 +1513,31 @@ static int dispatch(struct side *s, int which)
 }
 
 /* ---- model of the output contract (C04 statement / helper_output) ---- */
-static bool om_deliver(struct omodel *m, struct px_fix *fx)
+static void sev_add(struct st *st, int stamp, int sink, int what);
+static bool om_deliver(struct st *st, struct omodel *m, struct px_fix *fx)
 {
-    if (!m->live || m->flow == 0 || m->out == 0)
+    if (!m->live || m->flow == 0)
         return false;
-    if (m->ostate == OS_NONE)
-        m->ostate = fx->sinks[m->out - 1].reject ? OS_INVALID : OS_VALID;
+    bool react = st->a.need_output_react && m == &st->om[0];
+    if (m->out == 0) {
+        if (!react)
+            return false;
+        /* no output: need_output is thrown, the application connects S4 */
+        m->out = st->out = 5;
+        m->ostate = OS_NONE;
+        sev_add(st, fx->stamp, 4, 0);
+    }
+    if (m->ostate == OS_NONE) {
+        if (!fx->sinks[m->out - 1].reject)
+            m->ostate = OS_VALID;
+        else if (react && m->out != 5) {
+            /* refused: need_output is thrown, the application connects S4, which gets the definition and accepts */
+            m->out = st->out = 5;
+            m->ostate = OS_VALID;
+            sev_add(st, fx->stamp, 4, 0);
+        } else
+            m->ostate = OS_INVALID;
+    }
     return m->ostate == OS_VALID;
 }
 static void om_flow(struct omodel *m, int id)
@@ -1551,15 +1594,15 @@ static void do_input(struct st *st, struct side *s, int sh, bool primary, bool r
                 x->reentrant = true;
                 /* nothing is predicted for a buffer pushed from inside a callback (or after one) */
             } else if ((g_row->kind == K_ONE2ONE || g_row->kind == K_DUP) && x->forwarded) {
-                for (int k = 0; k < 4; k++)
+                for (int k = 0; k < PX_NSINKS; k++)
                     x->mustnot[k] = true;
                 for (int m = 2; m >= 0; m--) /* subpipes first, like the list walk; order is irrelevant to the result */
-                    if (om_deliver(&st->om[m], fx)) {
+                    if (om_deliver(st, &st->om[m], fx)) {
                         x->must[st->om[m].out - 1] = true;
                         x->mustnot[st->om[m].out - 1] = false;
                     }
             } else if ((g_row->kind == K_ONE2ONE || g_row->kind == K_DUP))
-                for (int k = 0; k < 4; k++)
+                for (int k = 0; k < PX_NSINKS; k++)
                     x->mustnot[k] = true;
         }
         upipe_input(s->in_pump && g_row->pump_to_main ? s->pipe : in_pipe(s), u, s->in_pump ? &s->src_pump : NULL);
@@ -1624,6 +1667,10 @@ static int apply_side(struct st *st, struct side *s, int op, bool primary)
             vmock_dispatch(vmock_pump_from_upump(s->src_pump));
     } else if (op == OP_TD_ORDER) {
         s->td_last = true;
+    } else if (op == OP_PROVIDE) {
+        px_provide_pending(fx);
+    } else if (op == OP_NEED_OUTPUT) {
+        s->need_output_react = true;
     } else if (op == OP_RELEASE) {
         if (s->up_registered) { /* a requester withdraws its request before letting go of the pipe */
             upipe_unregister_request(s->pipe, &s->up_req);
@@ -1695,6 +1742,10 @@ static bool op_enabled(struct st *st, int op)
                !(!strcmp(r->name, "genaux") && st->optmodel[0] == 2);
     if (op == OP_TD_ORDER)
         return r->uses_pumps && !s->td_last;
+    if (op == OP_PROVIDE)
+        return g_prov == 2 && px_pending_requests(&s->fx) > 0;
+    if (op == OP_NEED_OUTPUT)
+        return r->kind == K_ONE2ONE && !r->has_subs && !s->need_output_react;
     return true;
 }
 
@@ -1812,7 +1863,7 @@ static int apply(void *vst, int op, bool check)
     }
 
     /* ---- C05, synchronous part for one-to-one pipes ---- */
-    if ((g_oracle & O_C05) && g_row->kind == K_ONE2ONE && !is_input && st->a.nseq == nseq0) {
+    if ((g_oracle & O_C05) && g_row->kind == K_ONE2ONE && !is_input && st->a.nseq == nseq0 && op != OP_PROVIDE) {
         for (int i = srec0; i < fx->nsrec; i++)
             if (fx->srec[i].kind == PXS_INPUT)
                 FAIL(st, "c05:output-without-input", "a one-to-one pipe delivered buffer seq=%" PRId64 " during a call that is not an input", fx->srec[i].seq);
@@ -1833,7 +1884,7 @@ static void check_c05(struct st *st, struct side *s)
 {
     struct px_fix *fx = &s->fx;
     const struct row *r = g_row;
-    int nsinks = r->has_subs ? 4 : 2;
+    int nsinks = r->has_subs ? 4 : s->need_output_react ? PX_NSINKS : 2;
     for (int k = 0; k < nsinks; k++) {
         int64_t last = -1;
         for (int i = 0; i < fx->nsrec; i++) {
@@ -1873,11 +1924,13 @@ static void check_c05_must(struct st *st, struct side *s)
     struct px_fix *fx = &s->fx;
     if (g_row->kind != K_ONE2ONE && g_row->kind != K_DUP)
         return;
+    if (g_prov == 2)
+        return; /* a pipe may keep buffers while it waits for a manager; what then happens to them is judged by check_c05 and the accounting */
     for (int q = 0; q < st->nseq; q++) {
         struct expect *x = &st->exp[q];
         if (!x->used || x->reentrant)
             continue;
-        for (int k = 0; k < 4; k++) {
+        for (int k = 0; k < PX_NSINKS; k++) {
             int n = 0;
             for (int i = 0; i < fx->nsrec; i++)
                 if (fx->srec[i].kind == PXS_INPUT && fx->srec[i].sink == k && fx->srec[i].seq == q)
@@ -1918,6 +1971,8 @@ static void check_c05_sync(struct st *st, struct side *s)
     struct px_fix *fx = &s->fx;
     if (g_row->kind != K_ONE2ONE && g_row->kind != K_DUP)
         return;
+    if (g_prov == 2)
+        return;
     for (int q = 0; q < st->nseq; q++) {
         struct expect *x = &st->exp[q];
         if (!x->used)
@@ -1939,6 +1994,10 @@ static int final_check(void *vst)
     g_cur_st = st;
     struct side *sides[2] = {&st->a, st->two ? &st->b : NULL};
     bool was_released = st->released;
+    if (g_prov == 2) /* the providers answer what they still keep before the application lets go */
+        for (int k = 0; k < 2; k++)
+            if (sides[k])
+                px_provide_pending(&sides[k]->fx);
     if (!was_released && g_row->uses_pumps && !g_row->endless) {
         /* let the loop deliver what is held before the application lets go */
         for (int k = 0; k < 2; k++) {
